@@ -146,14 +146,15 @@ inductive BOutcome | skip | unit | errExists | errModule
 /-- `captureBisyncRdbExpandedCommands` -/
 def expandB (cfg : Cfg) (e : Entry) (hasKey : Bool) : List Req :=
   e.cmds.map (if hasKey then Req.data else Req.raw) ++
-    (if e.expireAt ≠ 0 ∧ e.key ≠ [] then [Req.pexpire e.key (ttlMs cfg.now e.expireAt)] else [])
+    (if e.expireAt ≠ 0 ∧ hasKey then [Req.pexpire e.key (ttlMs cfg.now e.expireAt)] else [])
 
-/-- `buildBisyncRdbReplayUnit` on a standalone target (no hashtag rewriting).
+/-- `buildBisyncRdbReplayUnit` on a standalone target (no hashtag rewriting),
+    REPAIRED behaviour for D21 (an entry is keyed by its kind, not by the length of its key).
     Result: requests sent directly (the probe), the unit's commands, outcome,
     new state. -/
 def buildUnit (pol : Policy) (cfg : Cfg) (st : RState) (v : View) (e : Entry) :
     List Req × List Req × BOutcome × RState :=
-  let hasKey : Bool := e.key ≠ [] && !(e.otype = .func || e.otype = .aux)
+  let hasKey : Bool := !(e.otype = .func || e.otype = .aux)             -- bisyncRdbIsKeyedEntry ("" is a key)
   let st1 : RState := if hasKey && e.first then none else st
   if hasKey && !e.first && st = some e.key then ([], [], .skip, st)
   else
